@@ -206,6 +206,110 @@ theorem c08_choice_coded_correct {α : Type} (items : List α) (ps us : List K)
 
 end choice_field
 
+/-- under the guard the normalised prefix sums are non-decreasing and end in exactly 1 — the array
+handed to `np.searchsorted` is a sorted cdf -/
+theorem c08_cdf_sorted {K : Type} [Field K] [LinearOrder K] [IsStrictOrderedRing K]
+    (ps c : List K) (hc : cdf ps = some c) (hp : ∀ p ∈ ps, 0 ≤ p) (hS : 0 < ps.sum) :
+    c.Pairwise (· ≤ ·) ∧ c.getLast? = some 1 := by
+  have hne : ps ≠ [] := by rintro rfl; simp at hS
+  unfold cdf at hc
+  rw [C08.cumsum_eq_cumFrom, C08.cumFrom_getLast? 0 ps hne, zero_add] at hc
+  simp only [Option.some.injEq] at hc
+  subst hc
+  have hsorted : ∀ (acc : K) (l : List K), (∀ p ∈ l, 0 ≤ p) → (cumFrom acc l).Pairwise (· ≤ ·) := by
+    intro acc l
+    induction l generalizing acc with
+    | nil => intro _; simp [cumFrom]
+    | cons p l ih =>
+      intro hl
+      have hl' : ∀ q ∈ l, 0 ≤ q := fun q hq => hl q (List.mem_cons_of_mem _ hq)
+      simp only [cumFrom, List.pairwise_cons]
+      exact ⟨fun c hc => C08.cumFrom_ge (acc + p) l hl' c hc, ih (acc + p) hl'⟩
+  constructor
+  · exact (hsorted 0 ps hp).map _ (fun a b hab => div_le_div_of_nonneg_right hab hS.le)
+  · rw [List.getLast?_map, C08.cumFrom_getLast? 0 ps hne, zero_add]
+    simp [div_self (ne_of_gt hS)]
+
+section choice_order
+variable {F : Type} [LinearOrder F]
+
+/-- on a sorted array the model's `search` (a count over the whole array) is the insertion point
+`np.searchsorted(side='right')` finds: the length of the leading run of entries `≤ u` -/
+theorem c08_search_sorted (c : List F) (u : F) (hs : c.Pairwise (· ≤ ·)) :
+    search true c u = (c.takeWhile (fun x => decide (x ≤ u))).length := by
+  simp only [search, if_true]
+  induction c with
+  | nil => simp
+  | cons x rest ih =>
+    rw [List.pairwise_cons] at hs
+    by_cases hx : x ≤ u
+    · simp [List.countP_cons, List.takeWhile_cons, hx, ih hs.2]
+    · have hz : rest.countP (fun y => decide (y ≤ u)) = 0 := by
+        rw [List.countP_eq_zero]
+        intro y hy
+        simp only [decide_eq_true_eq, not_le]
+        exact lt_of_lt_of_le (not_le.mp hx) (hs.1 y hy)
+      simp [List.countP_cons, List.takeWhile_cons, hx, hz]
+
+/-- **support without field axioms** (the IEEE-level argument): all that is used is a linear
+order, `a + 0 = a`, and that the normalised prefix sums handed to the search are sorted and start
+at or below `u`.  Then the picked index never carries weight `0` — adding `0` does not change the
+accumulator, so a zero-weight entry can never be the first one above `u`. -/
+theorem c08_choice_support_order [Add F] [Zero F] (norm : F → F) (hadd0 : ∀ a : F, a + 0 = a)
+    (ps : List F) (acc u : F)
+    (hsorted : (norm acc :: (cumFrom acc ps).map norm).Pairwise (· ≤ ·)) (h0 : norm acc ≤ u) :
+    ps[((cumFrom acc ps).map norm).countP (fun c => decide (c ≤ u))]? ≠ some 0 := by
+  induction ps generalizing acc with
+  | nil => simp
+  | cons p rest ih =>
+    simp only [cumFrom, List.map_cons] at hsorted ⊢
+    have htail := (List.pairwise_cons.mp hsorted).2
+    by_cases hx : norm (acc + p) ≤ u
+    · simp only [List.countP_cons, hx, decide_true, if_true, List.getElem?_cons_succ]
+      exact ih (acc + p) htail hx
+    · have hz : ((cumFrom (acc + p) rest).map norm).countP (fun y => decide (y ≤ u)) = 0 := by
+        rw [List.countP_eq_zero]
+        intro y hy
+        simp only [decide_eq_true_eq, not_le]
+        exact lt_of_lt_of_le (not_le.mp hx) ((List.pairwise_cons.mp htail).1 y hy)
+      simp only [List.countP_cons, hx, decide_false, hz]
+      intro hp
+      simp only [Bool.false_eq_true, if_false, List.getElem?_cons_zero, Option.some.injEq, Nat.add_zero] at hp
+      rw [hp, hadd0] at hx
+      exact hx h0
+
+/-- the same for the array `RandomChoice` really builds (`cumsum`, first entry `p[0]` itself,
+normalised by `norm = (· / total)`), with the search of the model -/
+theorem c08_choice_support_float_level [Add F] [Zero F] (norm : F → F) (hadd0 : ∀ a : F, a + 0 = a)
+    (ps : List F) (u : F)
+    (hsorted : (norm 0 :: (cumsum ps).map norm).Pairwise (· ≤ ·)) (h0 : norm 0 ≤ u) :
+    ps[search true ((cumsum ps).map norm) u]? ≠ some 0 := by
+  simp only [search, if_true]
+  cases ps with
+  | nil => simp
+  | cons p rest =>
+    simp only [cumsum, List.map_cons] at hsorted ⊢
+    have htail := (List.pairwise_cons.mp hsorted).2
+    by_cases hx : norm p ≤ u
+    · simp only [List.countP_cons, hx, decide_true, if_true, List.getElem?_cons_succ]
+      exact c08_choice_support_order norm hadd0 rest p u htail hx
+    · have hz : ((cumFrom p rest).map norm).countP (fun y => decide (y ≤ u)) = 0 := by
+        rw [List.countP_eq_zero]
+        intro y hy
+        simp only [decide_eq_true_eq, not_le]
+        exact lt_of_lt_of_le (not_le.mp hx) ((List.pairwise_cons.mp htail).1 y hy)
+      simp only [List.countP_cons, hx, decide_false, hz]
+      intro hp
+      simp only [Bool.false_eq_true, if_false, List.getElem?_cons_zero, Option.some.injEq, Nat.add_zero] at hp
+      rw [hp] at hx
+      exact hx h0
+
+end choice_order
+
+-- non-vacuity of the order-level premises (ℤ: weights [0,2,0,1], identity normalisation, u = 1)
+example : ((fun x : ℤ => x) 0 :: (cumsum ([0, 2, 0, 1] : List ℤ)).map (fun x => x)).Pairwise (· ≤ ·) := by decide
+example : ([0, 2, 0, 1] : List ℤ)[search true ((cumsum ([0, 2, 0, 1] : List ℤ)).map (fun x => x)) 1]? = some 2 := by decide
+
 /-- the side of the search matters: with `side='left'` the deviate `u = 0` picks an item of
 probability zero (weights `[0, 1]`) -/
 theorem c08_choice_left_counterexample :
@@ -396,7 +500,11 @@ example : extendMany 1 [0, 1] [(0, 2), (0, 1), (7, 1), (1, 3)] = [2, 3, 7, 4] :=
 example : ([1, 2, 4] : List Nat).Pairwise (· < ·) ∧ ¬ (0 ∈ [1, 2, 4] ∧ 1 ∈ [1, 2, 4]) ∧ nextSeedOld [1, 2, 4] = 3 := by
   decide
 
-/-! ## random streams: reproducible and kept apart -/
+/-! ## random streams: reproducible and kept apart
+
+Services live in a store (`World`) and are passed by reference, so `minimizer_rss is rss` is
+expressible (`doTrial w a (some a)`); objects created inside a call (`RandomStateService(seed=
+rss.seed)`, the per-worker services) are new objects and cannot alias a caller's object. -/
 
 section streams
 variable {V D R R' : Type}
@@ -406,139 +514,243 @@ namespace C08
 /-- the data side of a result row: the recorded seed and the generated pseudo data -/
 def dataOf {D R : Type} (o : TrialOut D R) : Nat × D := (o.seed, o.data)
 
-theorem trialsSeq_data (gen : Nat → Nat → V) (cfg₁ : TrialCfg V D R) (cfg₂ : TrialCfg V D R')
-    (h : cfg₁.dataGen = cfg₂.dataGen) (n : Nat) (rss : Stream) (m₁ m₂ : Option Stream) :
-    (trialsSeq gen cfg₁ n rss m₁).1.map dataOf = (trialsSeq gen cfg₂ n rss m₂).1.map dataOf ∧
-      (trialsSeq gen cfg₁ n rss m₁).2.1 = (trialsSeq gen cfg₂ n rss m₂).2.1 := by
-  induction n generalizing rss m₁ m₂ with
-  | zero => simp [trialsSeq]
-  | succ n ih =>
-    simp only [trialsSeq, List.map_cons]
-    have hd : (doTrial gen cfg₁ rss m₁).2.1 = (doTrial gen cfg₂ rss m₂).2.1 := by simp [doTrial, h]
-    have ho : dataOf (doTrial gen cfg₁ rss m₁).1 = dataOf (doTrial gen cfg₂ rss m₂).1 := by
-      simp [doTrial, dataOf, h]
-    rw [hd, ho]
-    obtain ⟨a, b⟩ := ih (doTrial gen cfg₂ rss m₂).2.1 (doTrial gen cfg₁ rss m₁).2.2 (doTrial gen cfg₂ rss m₂).2.2
-    exact ⟨by rw [a], b⟩
+/-- two stores agree on what a call `(rss = a, minimizer_rss = ms)` can see -/
+def Agree (a : Nat) (ms : Option Nat) (w₁ w₂ : World) : Prop :=
+  w₁ a = w₂ a ∧ ∀ m, ms = some m → w₁ m = w₂ m
 
-theorem trialsSeq_fit (gen : Nat → Nat → V) (cfg : TrialCfg V D R) (n : Nat) (rss : Stream) :
-    ∀ o ∈ (trialsSeq gen cfg n rss none).1, o.fit = (cfg.minim o.data (fun i => gen o.seed i)).1 := by
-  induction n generalizing rss with
+theorem set_other (w : World) (a b : Nat) (s : Stream) (h : b ≠ a) : (w.set a s) b = w b := by
+  simp [World.set, h]
+
+theorem set_same (w : World) (a : Nat) (s : Stream) : (w.set a s) a = s := by
+  simp [World.set]
+
+theorem map_succ_ne_zero (ms : Option Nat) : ms.map (· + 1) ≠ some 0 := by
+  cases ms <;> simp
+
+/-- a trial touches the data service and the minimiser service it is given, nothing else -/
+theorem doTrial_frame (gen : Nat → Nat → V) (cfg : TrialCfg V D R) (w : World) (a : Nat)
+    (ms : Option Nat) (b : Nat) (hb : b ≠ a) (hm : ms ≠ some b) : (doTrial gen cfg w a ms).2 b = w b := by
+  cases ms with
+  | none => simp only [doTrial]; exact set_other _ _ _ _ hb
+  | some m =>
+    have hbm : b ≠ m := fun e => hm (by rw [e])
+    simp only [doTrial]
+    rw [set_other _ _ _ _ hbm, set_other _ _ _ _ hb]
+
+/-- data side of one trial: for a minimiser service that is *not* the data service, the recorded
+seed, the pseudo data and the data service afterwards do not depend on the minimiser at all -/
+theorem doTrial_data (gen : Nat → Nat → V) (cfg₁ : TrialCfg V D R) (cfg₂ : TrialCfg V D R')
+    (h : cfg₁.dataGen = cfg₂.dataGen) (w₁ w₂ : World) (a : Nat) (ms₁ ms₂ : Option Nat)
+    (h₁ : ms₁ ≠ some a) (h₂ : ms₂ ≠ some a) (hw : w₁ a = w₂ a) :
+    dataOf (doTrial gen cfg₁ w₁ a ms₁).1 = dataOf (doTrial gen cfg₂ w₂ a ms₂).1 ∧
+      (doTrial gen cfg₁ w₁ a ms₁).2 a = (doTrial gen cfg₂ w₂ a ms₂).2 a := by
+  have e1 : ∀ (R'' : Type) (cfg : TrialCfg V D R'') (w : World) (ms : Option Nat), ms ≠ some a →
+      dataOf (doTrial gen cfg w a ms).1 = ((w a).seed, (cfg.dataGen ((w a).view gen)).1) ∧
+      (doTrial gen cfg w a ms).2 a = (w a).adv (cfg.dataGen ((w a).view gen)).2 := by
+    intro R'' cfg w ms hms
+    cases ms with
+    | none => simp [doTrial, dataOf, set_same]
+    | some m =>
+      have : a ≠ m := fun e => hms (by rw [e])
+      simp only [doTrial, dataOf, true_and]
+      rw [set_other _ _ _ _ this, set_same]
+  obtain ⟨a1, b1⟩ := e1 R cfg₁ w₁ ms₁ h₁
+  obtain ⟨a2, b2⟩ := e1 R' cfg₂ w₂ ms₂ h₂
+  rw [a1, a2, b1, b2, hw, h]
+  exact ⟨rfl, rfl⟩
+
+/-- a trial depends on the store only through the two services it is given (aliased or not) -/
+theorem doTrial_congr (gen : Nat → Nat → V) (cfg : TrialCfg V D R) (w₁ w₂ : World) (a : Nat)
+    (ms : Option Nat) (hw : Agree a ms w₁ w₂) :
+    (doTrial gen cfg w₁ a ms).1 = (doTrial gen cfg w₂ a ms).1 ∧
+      Agree a ms (doTrial gen cfg w₁ a ms).2 (doTrial gen cfg w₂ a ms).2 := by
+  obtain ⟨ha, hm⟩ := hw
+  cases ms with
+  | none =>
+    simp only [doTrial, ha, true_and]
+    exact ⟨by simp [World.set], fun m h => by simp at h⟩
+  | some m =>
+    have hmm := hm m rfl
+    have h1 : (w₁.set a ((w₂ a).adv (cfg.dataGen ((w₂ a).view gen)).2)) m =
+        (w₂.set a ((w₂ a).adv (cfg.dataGen ((w₂ a).view gen)).2)) m := by
+      simp only [World.set]; split_ifs <;> simp [hmm]
+    simp only [doTrial, ha, h1, true_and]
+    refine ⟨?_, ?_⟩
+    · simp only [World.set]; split_ifs <;> rfl
+    · intro m' hm'
+      simp only [Option.some.injEq] at hm'
+      subst hm'
+      simp [World.set]
+
+theorem trialsSeq_frame (gen : Nat → Nat → V) (cfg : TrialCfg V D R) (n : Nat) (w : World) (a : Nat)
+    (ms : Option Nat) (b : Nat) (hb : b ≠ a) (hm : ms ≠ some b) : (trialsSeq gen cfg n w a ms).2 b = w b := by
+  induction n generalizing w with
+  | zero => rfl
+  | succ n ih => simp only [trialsSeq]; rw [ih, doTrial_frame gen cfg w a ms b hb hm]
+
+theorem trialsSeq_data (gen : Nat → Nat → V) (cfg₁ : TrialCfg V D R) (cfg₂ : TrialCfg V D R')
+    (h : cfg₁.dataGen = cfg₂.dataGen) (n : Nat) (w₁ w₂ : World) (a : Nat) (ms₁ ms₂ : Option Nat)
+    (h₁ : ms₁ ≠ some a) (h₂ : ms₂ ≠ some a) (hw : w₁ a = w₂ a) :
+    (trialsSeq gen cfg₁ n w₁ a ms₁).1.map dataOf = (trialsSeq gen cfg₂ n w₂ a ms₂).1.map dataOf ∧
+      (trialsSeq gen cfg₁ n w₁ a ms₁).2 a = (trialsSeq gen cfg₂ n w₂ a ms₂).2 a := by
+  induction n generalizing w₁ w₂ with
+  | zero => exact ⟨rfl, hw⟩
+  | succ n ih =>
+    obtain ⟨d1, d2⟩ := doTrial_data gen cfg₁ cfg₂ h w₁ w₂ a ms₁ ms₂ h₁ h₂ hw
+    obtain ⟨i1, i2⟩ := ih _ _ d2
+    simp only [trialsSeq, List.map_cons]
+    exact ⟨by rw [d1, i1], i2⟩
+
+theorem trialsSeq_congr (gen : Nat → Nat → V) (cfg : TrialCfg V D R) (n : Nat) (w₁ w₂ : World) (a : Nat)
+    (ms : Option Nat) (hw : Agree a ms w₁ w₂) :
+    (trialsSeq gen cfg n w₁ a ms).1 = (trialsSeq gen cfg n w₂ a ms).1 ∧
+      Agree a ms (trialsSeq gen cfg n w₁ a ms).2 (trialsSeq gen cfg n w₂ a ms).2 := by
+  induction n generalizing w₁ w₂ with
+  | zero => exact ⟨rfl, hw⟩
+  | succ n ih =>
+    obtain ⟨d1, d2⟩ := doTrial_congr gen cfg w₁ w₂ a ms hw
+    obtain ⟨i1, i2⟩ := ih _ _ d2
+    simp only [trialsSeq]
+    exact ⟨by rw [d1, i1], i2⟩
+
+theorem trialsSeq_fit (gen : Nat → Nat → V) (cfg : TrialCfg V D R) (n : Nat) (w : World) (a : Nat) :
+    ∀ o ∈ (trialsSeq gen cfg n w a none).1, o.fit = (cfg.minim o.data (fun i => gen o.seed i)).1 := by
+  induction n generalizing w with
   | zero => simp [trialsSeq]
   | succ n ih =>
     intro o ho
     simp only [trialsSeq, List.mem_cons] at ho
     rcases ho with rfl | ho
-    · have hv : Stream.view gen (Stream.fresh rss.seed) = fun i => gen rss.seed i := by
+    · have hv : Stream.view gen (Stream.fresh (w a).seed) = fun i => gen (w a).seed i := by
         funext i; simp [Stream.view, Stream.fresh]
       simp only [doTrial]
       rw [hv]
-    · have h2 : (doTrial gen cfg rss none).2.2 = none := by simp [doTrial]
-      rw [h2] at ho
-      exact ih _ o ho
+    · exact ih _ o ho
 
-theorem trialsSeq_seed (gen : Nat → Nat → V) (cfg : TrialCfg V D R) (n : Nat) (rss : Stream)
-    (m : Option Stream) : ∀ o ∈ (trialsSeq gen cfg n rss m).1, o.seed = rss.seed := by
-  induction n generalizing rss m with
+theorem doTrial_seed (gen : Nat → Nat → V) (cfg : TrialCfg V D R) (w : World) (a : Nat) (ms : Option Nat) :
+    (doTrial gen cfg w a ms).1.seed = (w a).seed ∧ ((doTrial gen cfg w a ms).2 a).seed = (w a).seed := by
+  cases ms with
+  | none => simp [doTrial, set_same, Stream.adv]
+  | some m =>
+    simp only [doTrial, true_and]
+    by_cases h : a = m
+    · subst h; simp [set_same, Stream.adv]
+    · rw [set_other _ _ _ _ h, set_same]; simp [Stream.adv]
+
+theorem trialsSeq_seed (gen : Nat → Nat → V) (cfg : TrialCfg V D R) (n : Nat) (w : World) (a : Nat)
+    (ms : Option Nat) :
+    (∀ o ∈ (trialsSeq gen cfg n w a ms).1, o.seed = (w a).seed) ∧
+      ((trialsSeq gen cfg n w a ms).2 a).seed = (w a).seed := by
+  induction n generalizing w with
   | zero => simp [trialsSeq]
   | succ n ih =>
+    obtain ⟨s1, s2⟩ := doTrial_seed gen cfg w a ms
+    obtain ⟨i1, i2⟩ := ih (doTrial gen cfg w a ms).2
+    simp only [trialsSeq]
+    refine ⟨?_, by rw [i2, s2]⟩
     intro o ho
-    simp only [trialsSeq, List.mem_cons] at ho
-    rcases ho with rfl | ho
-    · simp [doTrial]
-    · have := ih _ _ o ho
-      simpa [doTrial, Stream.adv] using this
+    rcases List.mem_cons.mp ho with rfl | ho
+    · exact s1
+    · rw [i1 o ho, s2]
 
-theorem trialsSeq_length (gen : Nat → Nat → V) (cfg : TrialCfg V D R) (n : Nat) (rss : Stream)
-    (m : Option Stream) : (trialsSeq gen cfg n rss m).1.length = n := by
-  induction n generalizing rss m with
+theorem trialsSeq_length (gen : Nat → Nat → V) (cfg : TrialCfg V D R) (n : Nat) (w : World) (a : Nat)
+    (ms : Option Nat) : (trialsSeq gen cfg n w a ms).1.length = n := by
+  induction n generalizing w with
   | zero => simp [trialsSeq]
   | succ n ih => simp [trialsSeq, ih]
 
 end C08
 
 /-- **non-interference**: the data-generation side of `do_trials` — the recorded seeds, the pseudo
-data of every trial, the per-worker seeds and the position the data service is left at — is a
-function of the service, `n`, `ncpu` and the data-generation configuration only.  Two analyses
-that differ arbitrarily in their minimiser (how many restarts, how many numbers each restart
-draws, even the result type) and in the minimiser service they are given produce the same pseudo
-data: minimiser draws never shift the data-generation stream. -/
+data of every trial (master and workers), the per-worker seeds and the state the data service is
+left in — is the same for any two analyses with the same data generation, however their
+minimisers differ (number of restarts, numbers drawn per restart, result type) and whichever
+minimiser services they are given, **provided the minimiser service is not the data service
+itself**.  `do_trial` establishes exactly that when none is passed: it constructs a new object. -/
 theorem c08_noninterference (gen : Nat → Nat → V) (toSeed : V → Nat)
     (cfg₁ : TrialCfg V D R) (cfg₂ : TrialCfg V D R') (h : cfg₁.dataGen = cfg₂.dataGen)
-    (n ncpu : Nat) (rss : Stream) (m₁ m₂ : Option Stream) :
-    (parTrials gen toSeed cfg₁ n ncpu rss m₁).outs.map C08.dataOf =
-        (parTrials gen toSeed cfg₂ n ncpu rss m₂).outs.map C08.dataOf ∧
-      (parTrials gen toSeed cfg₁ n ncpu rss m₁).rss = (parTrials gen toSeed cfg₂ n ncpu rss m₂).rss ∧
-      (parTrials gen toSeed cfg₁ n ncpu rss m₁).workerSeeds =
-        (parTrials gen toSeed cfg₂ n ncpu rss m₂).workerSeeds := by
+    (n ncpu : Nat) (w₁ w₂ : World) (a : Nat) (ms₁ ms₂ : Option Nat)
+    (h₁ : ms₁ ≠ some a) (h₂ : ms₂ ≠ some a) (hw : w₁ a = w₂ a) :
+    (parTrials gen toSeed cfg₁ n ncpu w₁ a ms₁).outs.map C08.dataOf =
+        (parTrials gen toSeed cfg₂ n ncpu w₂ a ms₂).outs.map C08.dataOf ∧
+      (parTrials gen toSeed cfg₁ n ncpu w₁ a ms₁).world a = (parTrials gen toSeed cfg₂ n ncpu w₂ a ms₂).world a ∧
+      (parTrials gen toSeed cfg₁ n ncpu w₁ a ms₁).workerSeeds =
+        (parTrials gen toSeed cfg₂ n ncpu w₂ a ms₂).workerSeeds := by
   unfold parTrials
   by_cases hn : ncpu ≤ 1
   · simp only [hn, if_true]
-    obtain ⟨a, b⟩ := C08.trialsSeq_data gen cfg₁ cfg₂ h n rss m₁ m₂
-    exact ⟨a, b, trivial⟩
-  · simp only [hn, if_false, List.map_append, List.map_flatten, List.map_map]
-    obtain ⟨a, b⟩ := C08.trialsSeq_data gen cfg₁ cfg₂ h ((chunkSizes n ncpu).headD 0)
-      (rss.adv (ncpu - 1)) m₁ m₂
-    refine ⟨?_, b, trivial⟩
-    rw [a]
+    obtain ⟨x, y⟩ := C08.trialsSeq_data gen cfg₁ cfg₂ h n w₁ w₂ a ms₁ ms₂ h₁ h₂ hw
+    exact ⟨x, y, trivial⟩
+  · simp only [hn, if_false, List.map_append, List.map_flatten, List.map_map, hw]
+    obtain ⟨x, y⟩ := C08.trialsSeq_data gen cfg₁ cfg₂ h ((chunkSizes n ncpu).headD 0)
+      (w₁.set a ((w₂ a).adv (ncpu - 1))) (w₂.set a ((w₂ a).adv (ncpu - 1))) a ms₁ ms₂ h₁ h₂
+      (by rw [C08.set_same, C08.set_same])
+    refine ⟨?_, y, trivial⟩
+    rw [x]
     congr 2
     apply List.map_congr_left
     intro sk _
-    exact (C08.trialsSeq_data gen cfg₁ cfg₂ h sk.2 (Stream.fresh sk.1) m₁ m₂).1
+    exact (C08.trialsSeq_data gen cfg₁ cfg₂ h sk.2
+      ((w₁.set a ((w₂ a).adv (ncpu - 1))).push (Stream.fresh sk.1))
+      ((w₂.set a ((w₂ a).adv (ncpu - 1))).push (Stream.fresh sk.1)) 0 _ _ (C08.map_succ_ne_zero ms₁)
+      (C08.map_succ_ne_zero ms₂) rfl).1
 
-/-- separation is what makes this true: if the minimiser drew from the data service (model
-`doTrialShared`), two minimisers with a different number of draws would leave the data service at
-different positions, i.e. shift the pseudo data of the next trial. -/
-theorem c08_shared_stream_counterexample :
-    (doTrialShared (fun s p => (s, p)) (⟨fun v => (v 0, 1), fun _ _ => ((), 0)⟩ : TrialCfg (Nat × Nat) (Nat × Nat) Unit) ⟨5, 0⟩).2
-      ≠ (doTrialShared (fun s p => (s, p)) (⟨fun v => (v 0, 1), fun _ _ => ((), 2)⟩ : TrialCfg (Nat × Nat) (Nat × Nat) Unit) ⟨5, 0⟩).2 := by
-  decide
+/-- the hypothesis is necessary: with `minimizer_rss is rss` (reference `a` passed twice) two
+minimisers that differ only in how many numbers a restart draws leave the data service in
+different states — the next trial's pseudo data is shifted. -/
+theorem c08_aliased_service_interferes :
+    ∃ (cfg₁ cfg₂ : TrialCfg (Nat × Nat) (Nat × Nat) Unit) (w : World), cfg₁.dataGen = cfg₂.dataGen ∧
+      (parTrials (fun s p => (s, p)) (fun v => v.2) cfg₁ 2 1 w 0 (some 0)).outs.map C08.dataOf ≠
+        (parTrials (fun s p => (s, p)) (fun v => v.2) cfg₂ 2 1 w 0 (some 0)).outs.map C08.dataOf ∧
+      (parTrials (fun s p => (s, p)) (fun v => v.2) cfg₁ 2 1 w 0 (some 0)).world 0 ≠
+        (parTrials (fun s p => (s, p)) (fun v => v.2) cfg₂ 2 1 w 0 (some 0)).world 0 :=
+  ⟨⟨fun v => (v 0, 1), fun _ _ => ((), 0)⟩, ⟨fun v => (v 0, 1), fun _ _ => ((), 2)⟩, fun _ => ⟨5, 0⟩, rfl,
+    by decide, by decide⟩
+
+/-- what an aliased call does in the model is what the code does: data 2 words, then the
+restarts read from word 2 on and leave the shared service at word 6 -/
+theorem c08_aliased_service_trace :
+    (doTrial (fun s p => (s, p)) (⟨fun v => (v 0, 2), fun _ v => (v 0, 4)⟩ : TrialCfg (Nat × Nat) (Nat × Nat) (Nat × Nat))
+      (fun _ => ⟨5, 0⟩) 0 (some 0)).1.fit = (5, 2) ∧
+    (doTrial (fun s p => (s, p)) (⟨fun v => (v 0, 2), fun _ v => (v 0, 4)⟩ : TrialCfg (Nat × Nat) (Nat × Nat) (Nat × Nat))
+      (fun _ => ⟨5, 0⟩) 0 (some 0)).2 0 = ⟨5, 6⟩ := by decide
 
 /-- **the minimiser stream is fresh in every trial** (default `minimizer_rss=None`): the fit of a
 trial is the minimiser run on that trial's data with the stream of the recorded seed read from its
 beginning — so it depends on (seed, pseudo data) alone, not on how many trials ran before, on
 which process, or on what earlier minimisations consumed. -/
 theorem c08_minimizer_stream_fresh (gen : Nat → Nat → V) (toSeed : V → Nat) (cfg : TrialCfg V D R)
-    (n ncpu : Nat) (rss : Stream) :
-    ∀ o ∈ (parTrials gen toSeed cfg n ncpu rss none).outs,
+    (n ncpu : Nat) (w : World) (a : Nat) :
+    ∀ o ∈ (parTrials gen toSeed cfg n ncpu w a none).outs,
       o.fit = (cfg.minim o.data (fun i => gen o.seed i)).1 := by
   unfold parTrials
   by_cases hn : ncpu ≤ 1
   · simp only [hn, if_true]
-    exact C08.trialsSeq_fit gen cfg n rss
+    exact C08.trialsSeq_fit gen cfg n w a
   · simp only [hn, if_false]
     intro o ho
     rcases List.mem_append.mp ho with ho | ho
-    · exact C08.trialsSeq_fit gen cfg _ _ o ho
+    · exact C08.trialsSeq_fit gen cfg _ _ _ o ho
     · simp only [List.mem_flatten, List.mem_map] at ho
       obtain ⟨l, ⟨sk, _, rfl⟩, hol⟩ := ho
-      exact C08.trialsSeq_fit gen cfg _ _ o hol
+      exact C08.trialsSeq_fit gen cfg _ _ _ o hol
 
 /-- **worker seeds** are the next `ncpu − 1` words of the parent stream: a function of the parent
 service (seed, position) and `ncpu` — not of the tasks, the configuration or the minimiser
-service — and the master process continues right after them. -/
+service — and the parent service keeps its seed. -/
 theorem c08_worker_seeds_fn (gen : Nat → Nat → V) (toSeed : V → Nat) (cfg : TrialCfg V D R)
-    (n ncpu : Nat) (rss : Stream) (m : Option Stream) :
-    (parTrials gen toSeed cfg n ncpu rss m).workerSeeds = workerSeeds gen toSeed rss ncpu ∧
-      (parTrials gen toSeed cfg n ncpu rss m).workerSeeds.length = ncpu - 1 ∧
-      (parTrials gen toSeed cfg n ncpu rss m).rss.seed = rss.seed := by
+    (n ncpu : Nat) (w : World) (a : Nat) (ms : Option Nat) :
+    (parTrials gen toSeed cfg n ncpu w a ms).workerSeeds = workerSeeds gen toSeed (w a) ncpu ∧
+      (parTrials gen toSeed cfg n ncpu w a ms).workerSeeds.length = ncpu - 1 ∧
+      ((parTrials gen toSeed cfg n ncpu w a ms).world a).seed = (w a).seed := by
   unfold parTrials
   by_cases hn : ncpu ≤ 1
   · have h0 : ncpu - 1 = 0 := by omega
     simp only [hn, if_true, workerSeeds, h0, List.range_zero, List.map_nil, List.length_nil, true_and]
-    have : ∀ k (s : Stream) (m : Option Stream), (trialsSeq gen cfg k s m).2.1.seed = s.seed := by
-      intro k
-      induction k with
-      | zero => intro s m; simp [trialsSeq]
-      | succ k ih => intro s m; simp only [trialsSeq]; rw [ih]; simp [doTrial, Stream.adv]
-    exact this n rss m
+    exact (C08.trialsSeq_seed gen cfg n w a ms).2
   · simp only [hn, if_false, workerSeeds, List.length_map, List.length_range, true_and]
-    have : ∀ k (s : Stream) (m : Option Stream), (trialsSeq gen cfg k s m).2.1.seed = s.seed := by
-      intro k
-      induction k with
-      | zero => intro s m; simp [trialsSeq]
-      | succ k ih => intro s m; simp only [trialsSeq]; rw [ih]; simp [doTrial, Stream.adv]
-    rw [this]; simp [Stream.adv]
+    rw [(C08.trialsSeq_seed gen cfg _ _ a ms).2, C08.set_same]
+    simp [Stream.adv]
 
 namespace C08
 
@@ -567,19 +779,22 @@ end C08
 /-- **all `n` requested trials come back**, whatever `ncpu` is (the chunks of `np.array_split`
 cover every task once; one result row per task) -/
 theorem c08_trials_count (gen : Nat → Nat → V) (toSeed : V → Nat) (cfg : TrialCfg V D R)
-    (n ncpu : Nat) (rss : Stream) (m : Option Stream) :
-    (parTrials gen toSeed cfg n ncpu rss m).outs.length = n := by
+    (n ncpu : Nat) (w : World) (a : Nat) (ms : Option Nat) :
+    (parTrials gen toSeed cfg n ncpu w a ms).outs.length = n := by
   unfold parTrials
   by_cases hn : ncpu ≤ 1
   · simp [hn, C08.trialsSeq_length]
   · simp only [hn, if_false, List.length_append, List.length_flatten, List.map_map, C08.trialsSeq_length]
-    have hl : (chunkSizes n ncpu).tail.length ≤ (workerSeeds gen toSeed rss ncpu).length := by
+    have hl : (chunkSizes n ncpu).tail.length ≤ (workerSeeds gen toSeed (w a) ncpu).length := by
       simp [workerSeeds, C08.chunkSizes_length]
-    have h1 : ((workerSeeds gen toSeed rss ncpu).zip (chunkSizes n ncpu).tail).map
-        (List.length ∘ fun sk => (trialsSeq gen cfg sk.2 (Stream.fresh sk.1) m).1) = (chunkSizes n ncpu).tail := by
-      have h2 : ((workerSeeds gen toSeed rss ncpu).zip (chunkSizes n ncpu).tail).map
-          (List.length ∘ fun sk => (trialsSeq gen cfg sk.2 (Stream.fresh sk.1) m).1) =
-          ((workerSeeds gen toSeed rss ncpu).zip (chunkSizes n ncpu).tail).map Prod.snd := by
+    have h1 : ((workerSeeds gen toSeed (w a) ncpu).zip (chunkSizes n ncpu).tail).map
+        (List.length ∘ fun sk => (trialsSeq gen cfg sk.2
+          ((w.set a ((w a).adv (ncpu - 1))).push (Stream.fresh sk.1)) 0 (ms.map (· + 1))).1) =
+        (chunkSizes n ncpu).tail := by
+      have h2 : ((workerSeeds gen toSeed (w a) ncpu).zip (chunkSizes n ncpu).tail).map
+          (List.length ∘ fun sk => (trialsSeq gen cfg sk.2
+            ((w.set a ((w a).adv (ncpu - 1))).push (Stream.fresh sk.1)) 0 (ms.map (· + 1))).1) =
+          ((workerSeeds gen toSeed (w a) ncpu).zip (chunkSizes n ncpu).tail).map Prod.snd := by
         apply List.map_congr_left
         intro sk _
         simp [C08.trialsSeq_length]
@@ -590,65 +805,113 @@ theorem c08_trials_count (gen : Nat → Nat → V) (toSeed : V → Nat) (cfg : T
     | nil => rw [hc] at hs; simp at hs ⊢; exact hs
     | cons a l => rw [hc] at hs; simpa using hs
 
+/-- `do_trials` raises exactly for `ncpu < 1` (`get_ncpu`) and for `n = 0` (`result_list[0]`);
+under the guard it returns the `n` rows of `parTrials`. -/
+theorem c08_do_trials_no_error (gen : Nat → Nat → V) (toSeed : V → Nat) (cfg : TrialCfg V D R)
+    (n ncpu : Nat) (w : World) (a : Nat) (ms : Option Nat) :
+    (0 < n ∧ 0 < ncpu ↔ ∃ r, doTrials gen toSeed cfg n ncpu w a ms = .ok r) ∧
+      ∀ r, doTrials gen toSeed cfg n ncpu w a ms = .ok r → r.outs.length = n := by
+  unfold doTrials
+  constructor
+  · constructor
+    · rintro ⟨h1, h2⟩
+      rw [if_neg (by omega), if_neg (by omega)]
+      exact ⟨_, rfl⟩
+    · rintro ⟨r, hr⟩
+      split_ifs at hr with h1 h2
+      exact ⟨by omega, by omega⟩
+  · intro r hr
+    split_ifs at hr with h1 h2
+    simp only [Except.ok.injEq] at hr
+    rw [← hr]
+    exact c08_trials_count gen toSeed cfg n ncpu w a ms
+
 /-- every result row carries the seed of the service it was generated with: the parent seed
 (master process) or one of the worker seeds -/
 theorem c08_row_seeds (gen : Nat → Nat → V) (toSeed : V → Nat) (cfg : TrialCfg V D R)
-    (n ncpu : Nat) (rss : Stream) (m : Option Stream) :
-    ∀ o ∈ (parTrials gen toSeed cfg n ncpu rss m).outs,
-      o.seed = rss.seed ∨ o.seed ∈ workerSeeds gen toSeed rss ncpu := by
+    (n ncpu : Nat) (w : World) (a : Nat) (ms : Option Nat) :
+    ∀ o ∈ (parTrials gen toSeed cfg n ncpu w a ms).outs,
+      o.seed = (w a).seed ∨ o.seed ∈ workerSeeds gen toSeed (w a) ncpu := by
   unfold parTrials
   by_cases hn : ncpu ≤ 1
   · simp only [hn, if_true]
     intro o ho
-    exact Or.inl (C08.trialsSeq_seed gen cfg n rss m o ho)
+    exact Or.inl ((C08.trialsSeq_seed gen cfg n w a ms).1 o ho)
   · simp only [hn, if_false]
     intro o ho
     rcases List.mem_append.mp ho with ho | ho
     · left
-      have := C08.trialsSeq_seed gen cfg _ _ m o ho
-      simpa [Stream.adv] using this
+      rw [(C08.trialsSeq_seed gen cfg _ _ a ms).1 o ho, C08.set_same]
+      simp [Stream.adv]
     · right
       simp only [List.mem_flatten, List.mem_map] at ho
       obtain ⟨l, ⟨sk, hsk, rfl⟩, hol⟩ := ho
-      have := C08.trialsSeq_seed gen cfg _ _ m o hol
-      rw [this]
+      rw [(C08.trialsSeq_seed gen cfg _ _ 0 _).1 o hol]
+      simp only [World.push, Stream.fresh]
       exact (List.of_mem_zip hsk).1
 
 /-! ### histories on named services -/
 
 namespace C08
 
-theorem set_other (w : World) (a b : Nat) (s : Stream) (h : b ≠ a) : (w.set a s) b = w b := by
-  simp [World.set, h]
+theorem parTrials_frame (gen : Nat → Nat → V) (toSeed : V → Nat) (cfg : TrialCfg V D R) (n ncpu : Nat)
+    (w : World) (a : Nat) (ms : Option Nat) (b : Nat) (hb : b ≠ a) (hm : ms ≠ some b) :
+    (parTrials gen toSeed cfg n ncpu w a ms).world b = w b := by
+  unfold parTrials
+  by_cases hn : ncpu ≤ 1
+  · simp only [hn, if_true]
+    exact trialsSeq_frame gen cfg n w a ms b hb hm
+  · simp only [hn, if_false]
+    rw [trialsSeq_frame gen cfg _ _ a ms b hb hm, set_other _ _ _ _ hb]
 
-theorem set_same (w : World) (a : Nat) (s : Stream) : (w.set a s) a = s := by
-  simp [World.set]
+theorem push_agree (a : Nat) (ms : Option Nat) (w₁ w₂ : World) (s : Stream) (h : Agree a ms w₁ w₂) :
+    Agree 0 (ms.map (· + 1)) (w₁.push s) (w₂.push s) := by
+  refine ⟨rfl, ?_⟩
+  intro m hm
+  cases ms with
+  | none => simp at hm
+  | some m' =>
+    simp only [Option.map_some, Option.some.injEq] at hm
+    subst hm
+    exact h.2 m' rfl
+
+theorem set_agree (a : Nat) (ms : Option Nat) (w₁ w₂ : World) (s : Stream) (h : Agree a ms w₁ w₂) :
+    Agree a ms (w₁.set a s) (w₂.set a s) := by
+  refine ⟨by rw [set_same, set_same], ?_⟩
+  intro m hm
+  simp only [World.set]
+  split_ifs
+  · rfl
+  · exact h.2 m hm
+
+/-- the rows of `do_trials` depend on the store only through the services passed to it -/
+theorem parTrials_congr (gen : Nat → Nat → V) (toSeed : V → Nat) (cfg : TrialCfg V D R) (n ncpu : Nat)
+    (w₁ w₂ : World) (a : Nat) (ms : Option Nat) (hw : Agree a ms w₁ w₂) :
+    (parTrials gen toSeed cfg n ncpu w₁ a ms).outs = (parTrials gen toSeed cfg n ncpu w₂ a ms).outs := by
+  unfold parTrials
+  by_cases hn : ncpu ≤ 1
+  · simp only [hn, if_true]
+    exact (trialsSeq_congr gen cfg n w₁ w₂ a ms hw).1
+  · simp only [hn, if_false, hw.1]
+    have hs := set_agree a ms w₁ w₂ ((w₂ a).adv (ncpu - 1)) hw
+    rw [(trialsSeq_congr gen cfg _ _ _ a ms hs).1]
+    congr 2
+    apply List.map_congr_left
+    intro sk _
+    exact (trialsSeq_congr gen cfg sk.2 _ _ 0 _ (push_agree a ms _ _ _ hs)).1
 
 theorem step_frame (gen : Nat → Nat → V) (toSeed : V → Nat) (cfg : TrialCfg V D R) (w : World)
     (a : Nat) (op : Op) (h : op.touches a = false) : (step gen toSeed cfg w op).1 a = w a := by
   cases op with
   | draw s k =>
     simp only [Op.touches, beq_eq_false_iff_ne, ne_eq] at h
-    simp only [step]
     exact set_other _ _ _ _ (fun e => h e.symm)
   | reseed s seed =>
     simp only [Op.touches, beq_eq_false_iff_ne, ne_eq] at h
-    simp only [step]
     exact set_other _ _ _ _ (fun e => h e.symm)
   | trials s ms n ncpu =>
     simp only [Op.touches, Bool.or_eq_false_iff, beq_eq_false_iff_ne, ne_eq] at h
-    obtain ⟨h1, h2⟩ := h
-    simp only [step]
-    cases ms with
-    | none => exact set_other _ _ _ _ (fun e => h1 e.symm)
-    | some m =>
-      have hm : a ≠ m := fun e => h2 (by rw [e])
-      cases (parTrials gen toSeed cfg n ncpu (w s) (Option.map w (some m))).mrss with
-      | none => exact set_other _ _ _ _ (fun e => h1 e.symm)
-      | some st =>
-        simp only
-        rw [set_other _ _ _ _ hm]
-        exact set_other _ _ _ _ (fun e => h1 e.symm)
+    exact parTrials_frame gen toSeed cfg n ncpu w s ms a (fun e => h.1 e.symm) h.2
 
 theorem run_append (gen : Nat → Nat → V) (toSeed : V → Nat) (cfg : TrialCfg V D R) (w : World)
     (h₁ h₂ : List Op) :
@@ -661,8 +924,8 @@ theorem run_append (gen : Nat → Nat → V) (toSeed : V → Nat) (cfg : TrialCf
 
 end C08
 
-/-- **frame**: a history of operations (draws, reseeds, trial runs with any `ncpu`) that does not
-use service `a` leaves `a` exactly where it was. -/
+/-- **frame**: a history of operations (draws, reseeds, trial runs with any `ncpu`, aliased or
+not) that does not use service `a` leaves `a` exactly where it was. -/
 theorem c08_frame (gen : Nat → Nat → V) (toSeed : V → Nat) (cfg : TrialCfg V D R) (w : World)
     (a : Nat) (h : List Op) (hh : ∀ op ∈ h, op.touches a = false) :
     (run gen toSeed cfg w h).1 a = w a := by
@@ -674,55 +937,72 @@ theorem c08_frame (gen : Nat → Nat → V) (toSeed : V → Nat) (cfg : TrialCfg
     exact C08.step_frame gen toSeed cfg w a op (hh op (by simp))
 
 /-- **results do not depend on unrelated earlier use**: trials on service `a` (with the minimiser
-service `m`, if one is passed) give the same rows after an arbitrary history on *other* services
-as without that history. -/
+service `m`, if one is passed — even `m = a`) give the same rows after an arbitrary history on
+*other* services as without that history. -/
 theorem c08_history_independence (gen : Nat → Nat → V) (toSeed : V → Nat) (cfg : TrialCfg V D R)
     (w : World) (a : Nat) (ms : Option Nat) (n ncpu : Nat) (h : List Op)
     (hh : ∀ op ∈ h, op.touches a = false) (hm : ∀ m, ms = some m → ∀ op ∈ h, op.touches m = false) :
     (step gen toSeed cfg (run gen toSeed cfg w h).1 (.trials a ms n ncpu)).2 =
       (step gen toSeed cfg w (.trials a ms n ncpu)).2 := by
   simp only [step]
-  rw [c08_frame gen toSeed cfg w a h hh]
-  cases ms with
-  | none => rfl
-  | some m =>
-    simp only [Option.map_some]
-    rw [c08_frame gen toSeed cfg w m h (hm m rfl)]
+  apply C08.parTrials_congr
+  exact ⟨c08_frame gen toSeed cfg w a h hh, fun m hms => c08_frame gen toSeed cfg w m h (hm m hms)⟩
 
 /-- **same seed, same result**: take two executions with *arbitrary* different pasts `h₁`, `h₂`
-(on any services, including `a` itself, from any initial worlds); once service `a` is (re)seeded
-with `s` in both, `do_trials` on it returns identical rows — those of a fresh service of seed `s`. -/
+(on any services, including `a` itself, aliased calls, from any initial stores); once service `a`
+is (re)seeded with `s` in both, `do_trials` on it returns identical rows — those obtained from any
+store in which `a` is a new service of seed `s`. -/
 theorem c08_same_seed_same_result (gen : Nat → Nat → V) (toSeed : V → Nat) (cfg : TrialCfg V D R)
     (w₁ w₂ : World) (h₁ h₂ : List Op) (a s n ncpu : Nat) :
     (step gen toSeed cfg (run gen toSeed cfg w₁ (h₁ ++ [.reseed a s])).1 (.trials a none n ncpu)).2 =
-        (parTrials gen toSeed cfg n ncpu (Stream.fresh s) none).outs ∧
+        (parTrials gen toSeed cfg n ncpu (fun _ => Stream.fresh s) a none).outs ∧
       (step gen toSeed cfg (run gen toSeed cfg w₁ (h₁ ++ [.reseed a s])).1 (.trials a none n ncpu)).2 =
         (step gen toSeed cfg (run gen toSeed cfg w₂ (h₂ ++ [.reseed a s])).1 (.trials a none n ncpu)).2 := by
   have key : ∀ (w : World) (h : List Op),
       (step gen toSeed cfg (run gen toSeed cfg w (h ++ [.reseed a s])).1 (.trials a none n ncpu)).2 =
-        (parTrials gen toSeed cfg n ncpu (Stream.fresh s) none).outs := by
+        (parTrials gen toSeed cfg n ncpu (fun _ => Stream.fresh s) a none).outs := by
     intro w h
     rw [C08.run_append]
-    simp only [run, step, Option.map_none]
-    rw [C08.set_same]
+    simp only [run, step]
+    apply C08.parTrials_congr
+    exact ⟨C08.set_same _ _ _, fun m hm => by simp at hm⟩
   exact ⟨key w₁ h₁, by rw [key w₁ h₁, key w₂ h₂]⟩
 
+/-- the same with an explicit minimiser service `m ≠ a`: once both services are (re)seeded alike in
+the two executions, the trial **results** (fits included) are identical. -/
+theorem c08_same_seeds_same_result_explicit (gen : Nat → Nat → V) (toSeed : V → Nat) (cfg : TrialCfg V D R)
+    (w₁ w₂ : World) (h₁ h₂ : List Op) (a m s s' n ncpu : Nat) (hne : a ≠ m) :
+    (step gen toSeed cfg (run gen toSeed cfg w₁ (h₁ ++ [.reseed a s, .reseed m s'])).1 (.trials a (some m) n ncpu)).2 =
+      (step gen toSeed cfg (run gen toSeed cfg w₂ (h₂ ++ [.reseed a s, .reseed m s'])).1 (.trials a (some m) n ncpu)).2 := by
+  simp only [step]
+  apply C08.parTrials_congr
+  rw [C08.run_append, C08.run_append]
+  simp only [run, step]
+  refine ⟨?_, ?_⟩
+  · rw [C08.set_other _ _ _ _ hne, C08.set_other _ _ _ _ hne, C08.set_same, C08.set_same]
+  · intro m' hm'
+    simp only [Option.some.injEq] at hm'
+    subst hm'
+    rw [C08.set_same, C08.set_same]
+
 /-- the per-worker seeds requested from the parent stream (`randint(low, high)` as read from the
-source) are valid `RandomState` seeds, and the minimiser service is seeded from `rss.seed` -/
+source) span exactly one 32-bit word (the one-word model of the driver) and are valid
+`RandomState` seeds; the minimiser service is seeded from `rss.seed`; `do_trial` forwards the
+service it bound, not the data service -/
 theorem c08_streams_for_current_source :
-    Gen.C08.workerSeedLow = 0 ∧ Gen.C08.workerSeedHigh ≤ 4294967296 ∧
-      Gen.C08.minimizerSeedFromRss = true := by decide
+    Gen.C08.workerSeedLow = 0 ∧ Gen.C08.workerSeedHigh = 4294967296 ∧
+      Gen.C08.minimizerSeedFromRss = true ∧ Gen.C08.minimizerRssForwarded = true := by decide
 
 end streams
 
 /-! ## the time-generation service: fresh object = used object -/
 
 section times
-variable {V I W T : Type}
+variable {V I W T C : Type}
 
 namespace C08
 
-theorem trun_append (gen : Nat → Nat → V) (tc : TimeCfg V I W T) (st : TState I) (h₁ h₂ : List (TOp I W)) :
+theorem trun_append (gen : Nat → Nat → V) (tc : TimeCfg V I W T C) (st : TState I C) (h₁ h₂ : List (TOp I W)) :
     (trun gen tc st (h₁ ++ h₂)).1 = (trun gen tc (trun gen tc st h₁).1 h₂).1 := by
   induction h₁ generalizing st with
   | nil => rfl
@@ -730,10 +1010,9 @@ theorem trun_append (gen : Nat → Nat → V) (tc : TimeCfg V I W T) (st : TStat
 
 end C08
 
-/-- **the Livetime/TimeGenerator object carries no draw state**: a history of draws (any windows,
-sizes, services), unrelated consumption and reseeds — anything but assigning new intervals —
-leaves the object exactly as it was. -/
-theorem c08_time_object_unchanged (gen : Nat → Nat → V) (tc : TimeCfg V I W T) (st : TState I)
+/-- a history without an interval assignment leaves the interval array alone (the cache cell may
+have been written) -/
+theorem c08_time_intervals_unchanged (gen : Nat → Nat → V) (tc : TimeCfg V I W T C) (st : TState I C)
     (h : List (TOp I W)) (hh : ∀ op ∈ h, op.setsIvs = false) : (trun gen tc st h).1.ivs = st.ivs := by
   induction h generalizing st with
   | nil => rfl
@@ -744,7 +1023,7 @@ theorem c08_time_object_unchanged (gen : Nat → Nat → V) (tc : TimeCfg V I W 
     cases op <;> simp_all [tstep, TOp.setsIvs]
 
 /-- a history that does not use service `a` leaves `a` where it was -/
-theorem c08_time_frame (gen : Nat → Nat → V) (tc : TimeCfg V I W T) (st : TState I) (a : Nat)
+theorem c08_time_frame (gen : Nat → Nat → V) (tc : TimeCfg V I W T C) (st : TState I C) (a : Nat)
     (h : List (TOp I W)) (hh : ∀ op ∈ h, op.touches a = false) : (trun gen tc st h).1.world a = st.world a := by
   induction h generalizing st with
   | nil => rfl
@@ -764,51 +1043,78 @@ theorem c08_time_frame (gen : Nat → Nat → V) (tc : TimeCfg V I W T) (st : TS
       simp only [TOp.touches, beq_eq_false_iff_ne, ne_eq] at ht
       exact C08.set_other _ _ _ _ (fun e => ht e.symm)
 
-/-- **used object = fresh object**: a draw (window or not) with service `a` after an arbitrary
-history of earlier draws with *other* services on the same object — windowed, plain, different
-windows, interleaved with unrelated consumption — returns what an untouched object returns. -/
-theorem c08_time_fresh_vs_used (gen : Nat → Nat → V) (tc : TimeCfg V I W T) (st : TState I) (a : Nat)
-    (win : Option W) (size : Nat) (h : List (TOp I W))
+/-- **used object = fresh object, for a transparent cache**: if whatever a draw leaves on the
+object never shows in the returned times (`Transparent`, the premise the `time_history`
+correspondence tests on the real `Livetime`/`TimeGenerator`), then a draw (window or not) with
+service `a` after an arbitrary history of earlier draws with other services on the same object —
+windowed, plain, different windows, interleaved with unrelated consumption — returns what an
+untouched object (empty cache) returns. -/
+theorem c08_time_fresh_vs_used (gen : Nat → Nat → V) (tc : TimeCfg V I W T C) (ht : tc.Transparent)
+    (st : TState I C) (a : Nat) (win : Option W) (size : Nat) (h : List (TOp I W))
     (h1 : ∀ op ∈ h, op.setsIvs = false) (h2 : ∀ op ∈ h, op.touches a = false) :
-    (tstep gen tc (trun gen tc st h).1 (.draw a win size)).2 = (tstep gen tc st (.draw a win size)).2 := by
+    (tstep gen tc (trun gen tc st h).1 (.draw a win size)).2 =
+      (tstep gen tc ⟨st.ivs, none, st.world⟩ (.draw a win size)).2 := by
   simp only [tstep]
-  rw [c08_time_object_unchanged gen tc st h h1, c08_time_frame gen tc st a h h2]
+  rw [c08_time_intervals_unchanged gen tc st h h1, c08_time_frame gen tc st a h h2, ht]
 
-/-- **same seed, same times**: two executions with arbitrary pasts on their objects (including
-draws with `a` itself, from any worlds), same intervals: once `a` is reseeded with `s`, the same
-draw returns the same times — those of a new object with a new service of seed `s`. -/
-theorem c08_time_same_seed_same_times (gen : Nat → Nat → V) (tc : TimeCfg V I W T) (st₁ st₂ : TState I)
-    (hi : st₁.ivs = st₂.ivs) (h₁ h₂ : List (TOp I W)) (a s : Nat) (win : Option W) (size : Nat)
-    (hh₁ : ∀ op ∈ h₁, op.setsIvs = false) (hh₂ : ∀ op ∈ h₂, op.setsIvs = false) :
+/-- without transparency the statement is false: a cache that keeps the cumulative array of the last
+draw (model `leakyDraw`, the shape of the seeded change the first version of this check missed)
+makes [windowed draw, plain draw] differ from a plain draw on an untouched object. -/
+theorem c08_time_cache_counterexample :
+    ¬ leakyDraw.Transparent ∧
+    (tstep (fun s p => s + p) leakyDraw (trun (fun s p => s + p) leakyDraw ⟨10, none, fun _ => ⟨1, 0⟩⟩ [.draw 1 (some 3) 2]).1
+        (.draw 0 none 2)).2 ≠
+      (tstep (fun s p => s + p) leakyDraw ⟨10, none, fun _ => ⟨1, 0⟩⟩ (.draw 0 none 2)).2 := by
+  constructor
+  · intro h
+    have := h 0 (some 1) none 0 (fun _ => 0)
+    simp [leakyDraw] at this
+  · decide
+
+/-- **same seed, same times** (transparent cache): two executions with arbitrary pasts on their
+objects (including draws with `a` itself, from any stores), same intervals: once `a` is reseeded
+with `s`, the same draw returns the same times — those of a new object with a new service. -/
+theorem c08_time_same_seed_same_times (gen : Nat → Nat → V) (tc : TimeCfg V I W T C) (ht : tc.Transparent)
+    (st₁ st₂ : TState I C) (hi : st₁.ivs = st₂.ivs) (h₁ h₂ : List (TOp I W)) (a s : Nat) (win : Option W)
+    (size : Nat) (hh₁ : ∀ op ∈ h₁, op.setsIvs = false) (hh₂ : ∀ op ∈ h₂, op.setsIvs = false) :
     (tstep gen tc (trun gen tc st₁ (h₁ ++ [.reseed a s])).1 (.draw a win size)).2 =
-        some (tc.draw st₁.ivs win size ((Stream.fresh s).view gen)) ∧
+        some (tc.draw st₁.ivs none win size ((Stream.fresh s).view gen)).1 ∧
       (tstep gen tc (trun gen tc st₁ (h₁ ++ [.reseed a s])).1 (.draw a win size)).2 =
         (tstep gen tc (trun gen tc st₂ (h₂ ++ [.reseed a s])).1 (.draw a win size)).2 := by
-  have key : ∀ (st : TState I) (h : List (TOp I W)), (∀ op ∈ h, op.setsIvs = false) →
+  have key : ∀ (st : TState I C) (h : List (TOp I W)), (∀ op ∈ h, op.setsIvs = false) →
       (tstep gen tc (trun gen tc st (h ++ [.reseed a s])).1 (.draw a win size)).2 =
-        some (tc.draw st.ivs win size ((Stream.fresh s).view gen)) := by
+        some (tc.draw st.ivs none win size ((Stream.fresh s).view gen)).1 := by
     intro st h hh
     rw [C08.trun_append]
     simp only [trun, tstep, C08.set_same]
-    rw [c08_time_object_unchanged gen tc st h hh]
+    rw [c08_time_intervals_unchanged gen tc st h hh, ht]
   exact ⟨key st₁ h₁ hh₁, by rw [key st₁ h₁ hh₁, key st₂ h₂ hh₂, hi]⟩
 
 /-- assigning new intervals is the one operation that matters: afterwards every draw uses the
 intervals assigned last, whatever was drawn in between -/
-theorem c08_time_intervals_last_set (gen : Nat → Nat → V) (tc : TimeCfg V I W T) (st : TState I)
+theorem c08_time_intervals_last_set (gen : Nat → Nat → V) (tc : TimeCfg V I W T C) (st : TState I C)
     (J : I) (h h' : List (TOp I W)) (hh : ∀ op ∈ h', op.setsIvs = false) :
     (trun gen tc st (h ++ [.setIvs J] ++ h')).1.ivs = J := by
-  rw [C08.trun_append, c08_time_object_unchanged gen tc _ h' hh, C08.trun_append]
+  rw [C08.trun_append, c08_time_intervals_unchanged gen tc _ h' hh, C08.trun_append]
   simp [trun, tstep]
 
 end times
+
+-- non-vacuity: a transparent draw function that does write its cache
+example : (⟨fun ivs c _ _ v => (ivs + v 0, match c with | none => some 1 | some k => some (k + 1))⟩ :
+    TimeCfg Nat Nat Nat Nat Nat).Transparent := by
+  intro ivs c win size v; rfl
 
 -- non-vacuity: a windowed draw, an unrelated consumer and a plain draw on other services
 example : ∀ op ∈ ([TOp.draw 1 (some (2, 3)) 5, TOp.other 2 9, TOp.draw 1 none 4] : List (TOp Nat (Nat × Nat))),
     op.setsIvs = false ∧ op.touches 0 = false := by decide
 
--- non-vacuity: a history that leaves service 0 alone, and one trial whose minimiser consumes words
-example : ∀ op ∈ [Op.draw 1 7, Op.reseed 2 5, Op.trials 1 (some 2) 3 2], op.touches 0 = false := by decide
+-- non-vacuity: a history that leaves service 0 alone (it even contains an aliased call on service 1)
+example : ∀ op ∈ [Op.draw 1 7, Op.reseed 2 5, Op.trials 1 (some 2) 3 2, Op.trials 1 (some 1) 2 1], op.touches 0 = false := by
+  decide
+-- non-vacuity: one run with two processes whose minimiser consumes words
 example : (parTrials (fun s p => s + p) id
-    (⟨fun v => (v 0, 2), fun d v => (d + v 0, 4)⟩ : TrialCfg Nat Nat Nat) 3 2 ⟨10, 0⟩ none).outs.map
+    (⟨fun v => (v 0, 2), fun d v => (d + v 0, 4)⟩ : TrialCfg Nat Nat Nat) 3 2 (fun _ => ⟨10, 0⟩) 0 none).outs.map
       (fun o => (o.seed, o.data, o.fit)) = [(10, 11, 21), (10, 13, 23), (10, 10, 20)] := by decide
+-- non-vacuity of the distinctness hypotheses
+example : (none : Option Nat) ≠ some 0 ∧ (some 1 : Option Nat) ≠ some 0 := by decide
